@@ -56,6 +56,24 @@ def _cls(e) -> str:
     return type(e).__name__
 
 
+_SOME_TX = []
+
+
+def _fatten(v):
+    from pycoin.block import Block
+    if isinstance(v, Block) and not v.txs:
+        if not _SOME_TX:
+            import io, random
+            _SOME_TX.append(BTC.tx.parse(io.BytesIO(gen_tx_bytes(random.Random(16)))))
+        v.txs = [_SOME_TX[0], _SOME_TX[0]]
+        return v
+    if isinstance(v, list):
+        return [_fatten(x) for x in v]
+    if isinstance(v, tuple):
+        return tuple(_fatten(x) for x in v)
+    return v
+
+
 def impl(op: str) -> str:
     a = op.split(" ")
     k = a[0]
@@ -66,6 +84,10 @@ def impl(op: str) -> str:
                 kwargs = {kk: M.to_py(v) for kk, v in fields}
             except Exception as e:  # noqa: BLE001  (the embedded tx/block bytes do not parse: not a message-layer case)
                 return "err build"
+            if len(a) > 3 and a[3] == "fullblock":
+                # the header fields are handed over as Block objects that CARRY transactions (a block just parsed from the
+                # wire): a header field is the 80-byte header of that object, nothing more
+                kwargs = {kk: _fatten(v) for kk, v in kwargs.items()}
             try:
                 data = BTC.message.pack(name, **kwargs)
             except Exception as e:  # noqa: BLE001
@@ -146,7 +168,7 @@ def oracle(op: str, out: str):
         want = ref_pack(layout, fields)
     except OutOfType:
         return None  # some value outside its declared type: outside the quantifier
-    if name == "merkleblock" and tag != "honest":
+    if name == "merkleblock" and tag not in ("honest", "fullblock"):
         if out.startswith("err parse ValueError") or out.startswith("err parse IndexError"):
             return None  # the merkleblock post-processor validates the partial merkle tree (C14)
     if not out.startswith("ok "):
@@ -342,6 +364,15 @@ def gen(ctx, emit):
                 rt(name, [("payload", alert_body(rng)), ("signature", rng.randbytes(rng.choice([0, 64, 72])))])
             else:
                 rt(name, gen_fields(rng, name))
+    # header-typed fields handed over as Block objects that carry transactions: the field is the header alone
+    for name in NAMES:
+        if any(t == "header" or (isinstance(t, list) and "header" in t) for _, t in REF[name]):
+            if name == "merkleblock":
+                for n in (1, 2, 5):
+                    rt(name, honest_merkleblock(rng, n), "fullblock")
+            else:
+                for c in (1, 2, 3):
+                    rt(name, gen_fields(rng, name, count=c), "fullblock")
     # every integer boundary in every integer-typed scalar field
     for name in NAMES:
         for idx, (k, t) in enumerate(REF[name]):
